@@ -140,6 +140,10 @@ class FakeTransport(asyncio.Transport):
 
     def write(self, data):
         data = bytes(data)
+        if self._closing:
+            # asyncio's socket transport silently discards writes once the connection is lost / closing
+            self._net.log.append(("write-discarded", self._conn.cid, self._loop.time(), data))
+            return
         if self._net.pre_event:
             self._net.pre_event(self._conn)
         self._conn.written.append(data)
@@ -208,7 +212,7 @@ class Net:
     def inject(self, conn, delay, data):
         """the peer sends on its own (not in answer to a write)"""
         self._seq += 1
-        heapq.heappush(self._inflight, (round(round(self.loop.time(), 3) + delay, 6), self._seq, conn, bytes(data)))
+        heapq.heappush(self._inflight, (round(round(self.loop.time(), 3) + delay, 6), self._seq, conn, data if data == "close" else bytes(data)))
         self._arm()
 
     def _arm(self):
